@@ -98,6 +98,7 @@ class Env:
         self.keep = []
         self.loop_started = False
         self.scope_tasks = {}
+        self.closing_depth = 0     # number of Task.__close__ calls on the Python call stack (= `closing` of the machine)
 
     def digest(self):
         """fields of the static objects at the end of the run (compared with the model's state)"""
@@ -430,7 +431,10 @@ class Env:
                     # a coroutine that is being closed handles nothing: what passes by is (a replacement of) its
                     # GeneratorExit -- otherwise it would depend on how the program is cut into coroutine frames
                     # whether the code after the handler still runs
-                    if not _closing(e):
+                    # ("being closed" = we run inside somebody's Task.__close__; NOT "the exception has a GeneratorExit
+                    # in its context": an exception raised by the cleanup code of a closed task keeps that context when
+                    # it is re-raised, as the task's failure, in whoever awaits the task)
+                    if self.closing_depth == 0:
                         for pat, hb in handlers:
                             if self.matches(pat, e):
                                 h = hb
@@ -642,6 +646,16 @@ def run_scenario(sc, budget=4000, wall=10, probes=None):
         return orig_pop(self)
 
     loopmod.Loop._run_coroutine = wrapped
+    from usim._primitives import task as taskmod
+    orig_close = taskmod.Task.__close__
+
+    def close_wrapped(self, *a, **k):
+        env.closing_depth += 1
+        try:
+            return orig_close(self, *a, **k)
+        finally:
+            env.closing_depth -= 1
+    taskmod.Task.__close__ = close_wrapped
     if probes is not None:
         loopmod.Loop.schedule = sched
         wq.pop = pop
@@ -667,6 +681,7 @@ def run_scenario(sc, budget=4000, wall=10, probes=None):
         signal.alarm(0)
         signal.signal(signal.SIGALRM, old)
         loopmod.Loop._run_coroutine = orig_run
+        taskmod.Task.__close__ = orig_close
         loopmod.Loop.schedule = orig_sched
         wq.pop = orig_pop
     info['parked'] = dict(env.waiting)      # waits that never completed (taken before the roots are closed below)
